@@ -19,8 +19,32 @@ ROOT = os.path.dirname(os.path.dirname(os.path.abspath(__file__)))
 REPO = os.environ.get("VERIF_REPO", "/repo")
 BUILD = os.path.join(ROOT, "build")
 HARNESS = os.path.join(ROOT, "harness")
-EVIDENCE = os.path.join(ROOT, "evidence")
-REPLAY = os.path.join(ROOT, "replay")
+if REPO != "/repo":
+    # development aid (seeded-change runs): build against a scratch copy / worktree of the repository without touching
+    # /repo. The harness manifest names /repo, so a private copy of the harness with rewritten path dependencies is used.
+    _tag = hashlib.sha1(REPO.encode()).hexdigest()[:10]
+    BUILD = os.path.join(ROOT, "build", "alt-" + _tag)
+    EVIDENCE = os.path.join(BUILD, "evidence")  # a run against a scratch copy never rewrites the committed evidence
+    REPLAY = os.path.join(BUILD, "replay")
+    HARNESS = os.path.join(BUILD, "harness")
+    os.makedirs(BUILD, exist_ok=True)
+    for _d, _dn, _fn in os.walk(os.path.join(ROOT, "harness")):
+        if "target" in _d.split(os.sep):
+            continue
+        for _f in _fn:
+            if _f == "Cargo.lock":
+                continue
+            _src = os.path.join(_d, _f)
+            _dst = os.path.join(HARNESS, os.path.relpath(_src, os.path.join(ROOT, "harness")))
+            _data = open(_src, "rb").read()
+            if _f == "Cargo.toml":
+                _data = _data.replace(b'path = "/repo/', ('path = "%s/' % REPO.rstrip("/")).encode())
+            os.makedirs(os.path.dirname(_dst), exist_ok=True)
+            if not os.path.exists(_dst) or open(_dst, "rb").read() != _data:
+                open(_dst, "wb").write(_data)
+if REPO == "/repo":
+    EVIDENCE = os.path.join(ROOT, "evidence")
+    REPLAY = os.path.join(ROOT, "replay")
 NCPU = int(os.environ.get("VERIF_JOBS", str(min(16, os.cpu_count() or 4))))
 
 EXIT_OK, EXIT_VIOLATION, EXIT_INCONCLUSIVE = 0, 1, 3
@@ -68,7 +92,8 @@ def build(variants, quiet=True):
         os.makedirs(tdir, exist_ok=True)
         with open(os.path.join(BUILD, ".lock-" + feat), "w") as lk:
             fcntl.flock(lk, fcntl.LOCK_EX)
-            shutil.copyfile(os.path.join(REPO, "Cargo.lock"), lockfile)
+            src_lock = os.path.join(REPO, "Cargo.lock")
+            shutil.copyfile(src_lock if os.path.exists(src_lock) else "/repo/Cargo.lock", lockfile)
             cmd = ["cargo", "build", "--offline", "--profile", prof, "--no-default-features", "--features", feat]
             t0 = time.time()
             p = subprocess.run(cmd, cwd=HARNESS, env=_cargo_env(tdir), capture_output=True, text=True)
